@@ -288,7 +288,7 @@ def cold_replay(prop):
             lines = golden_tool_lines(binary)
             v = vlib.validate(lines, [prop], shards=1)
             mine = [b for b in v.bad if b[1] == prop]
-            return (len(mine) == 0, "the generator run again on the canonical lists: %d Gen events, %d failing" % (len(lines) // 2, len(mine)))
+            return (len(mine) == 0, "the generator run again on the canonical lists: %d Gen events, %d failing" % (sum(1 for x in lines if '"op":"Gen"' in x), len(mine)))
         if "concheck_seed" in cut:
             for attempt in range(6):
                 lines = concheck_lines(binary, cut["concheck_tier"], cut["concheck_seed"] + attempt)
@@ -529,7 +529,7 @@ RECIPES = {
     "C03": dict(mc=[mc_codec(True)], record=gen_recorder("C03", concheck=True), replay=cold_replay("C03"), prefix_ok=True, props=["C03"], speaks=is_check,
                 rule="CheckMnemonic/IsMnemonicValid verdicts on damaged sentences (all 2047 substitutions at a position, transpositions, count changes, other lists, "
                      "case/affix damage, separators, byte fuzz) and sweeps of all 2048 last words; distinct by (input, language)"),
-    "C15": dict(mc=[mc_codec(False)], record=gen_recorder("C15"), props=["C15"], speaks=lambda e: e.get("op") == "Check",
+    "C15": dict(mc=[mc_codec(False)], record=gen_recorder("C15", concheck=True), replay=cold_replay("C15"), props=["C15"], speaks=lambda e: e.get("op") == "Check",
                 rule="CheckMnemonic error values on sentences with one class of defect (counts 0..30, unknown tokens at every position, wrong last word) "
                      "and on the C03 mutation classes; distinct by (input, language)"),
     "C08": dict(mc=[MC_LISTS], record=gen_recorder("C08", cold=True), replay=cold_replay("C08"), prefix_ok=True, props=["C08"], exhaustive=True, need_cover=True,
@@ -1690,24 +1690,35 @@ def replay_c17(path, binary):
     srv = http.server.ThreadingHTTPServer(("127.0.0.1", 0), _Srv)
     threading.Thread(target=srv.serve_forever, daemon=True).start()
     try:
-        text = "".join(chr(u) if u >= 0 else "?" for u in ev["input"]).encode()
+        def raw(us):
+            return b"".join(chr(u).encode() if u >= 0 else bytes([-1 - u]) for u in us)
+        text = raw(ev["input"])
+        # the ten inputs of the recorded run, each served to its own target (targets missing from the unit get the first input)
+        own = {raw(e["file"]).decode(): raw(e["input"]) for e in rp["unit"] if e.get("op") == "Gen"}
+        inputs = {f: own.get(f, text) for f in FILES}
         d = vlib.scratch("verif-gen-")
         # as in the recorded run, the tool regenerates over the (longer) output of an earlier run
-        longer = text + b"\n" + b"\n".join(b"zzzzzzzzzzzzzzzzzzzzzzzz" for _ in range(40)) + b"\n"
-        run_tool(tool, binary, srv.server_address[1], {f: longer for f in FILES}, False, "replay-previous-run", d)
+        longer = {f: b + b"\n" + b"\n".join(b"zzzzzzzzzzzzzzzzzzzzzzzz" for _ in range(40)) + b"\n" for f, b in inputs.items()}
+        run_tool(tool, binary, srv.server_address[1], longer, False, "replay-previous-run", d)
         # ... and over a run whose upstream had the same size but other content
-        ls = text.split(b"\n")
-        other = b"\n".join(reversed(ls)) if len(ls) > 1 else bytes(reversed(text))
-        if len(other) == len(text) and other != text:
-            run_tool(tool, binary, srv.server_address[1], {f: other for f in FILES}, False, "replay-same-size-run", d)
-        lines = run_tool(tool, binary, srv.server_address[1], {f: text for f in FILES}, False, "replay", d)
-        lines += run_tool(tool, binary, srv.server_address[1], {f: text for f in FILES}, False, "replay-tmp-on-other-fs", d, other_fs=True)
-        lines += run_tool(tool, binary, srv.server_address[1], {f: text for f in FILES}, False, "replay-broken-transfer", d, faults={f: 1 for f in FILES[::3]})
+        def other_of(b):
+            ls = b.split(b"\n")
+            return b"\n".join(reversed(ls)) if len(ls) > 1 else bytes(reversed(b))
+        others = {f: other_of(b) for f, b in inputs.items()}
+        if all(len(others[f]) == len(inputs[f]) for f in FILES) and others != inputs:
+            run_tool(tool, binary, srv.server_address[1], others, False, "replay-same-size-run", d)
+        lines = run_tool(tool, binary, srv.server_address[1], inputs, False, "replay", d)
+        lines += run_tool(tool, binary, srv.server_address[1], inputs, False, "replay-tmp-on-other-fs", d, other_fs=True)
+        lines += run_tool(tool, binary, srv.server_address[1], inputs, False, "replay-broken-transfer", d, faults={f: 1 for f in FILES[::3]})
+        if len(set(inputs.values())) > 1:
+            # the same inputs handed to other targets (the tool walks its targets in an order of its own)
+            rot = {f: inputs[FILES[(i + 3) % len(FILES)]] for i, f in enumerate(FILES)}
+            lines += run_tool(tool, binary, srv.server_address[1], rot, False, "replay-rotated", d)
     finally:
         srv.shutdown()
     v = vlib.validate(lines, ["C17"], shards=1)
     mine = [b for b in v.bad if b[1] == "C17"]
-    return (len(mine) == 0, "served the recorded input for all ten targets: %d Gen events, %d failing" % (len(lines) // 2, len(mine)))
+    return (len(mine) == 0, "served the recorded inputs of the run to the ten targets: %d Gen events, %d failing" % (sum(1 for x in lines if '"op":"Gen"' in x), len(mine)))
 
 
 RECIPES["C17"] = dict(mc=[mc_generator], record=record_c17, replay=replay_c17, props=["C17"],
